@@ -94,7 +94,7 @@ func c2Senders(w *W, s mangos.Socket, kind, who string, nsend, nmsg int, accepte
 
 func c02Pair(w *W) {
 	kind := []string{"pair", "xpair", "pair1", "xpair1"}[w.Choose(simrt.SShape, 4)]
-	tran := []string{"inproc", "sim", "simipc"}[w.Choose(simrt.SShape, 3)]
+	tran := []string{"inproc", "sim", "simipc", "tcp", "ipc", "tls+tcp"}[w.Choose(simrt.SShape, 6)]
 	qs := []int{0, 1, 2, 128}
 	wq, rq := qs[w.Choose(simrt.SShape, 4)], qs[w.Choose(simrt.SShape, 4)]
 	nsend := 1 + w.Choose(simrt.SShape, 3)
@@ -137,11 +137,11 @@ func c02Pair(w *W) {
 			attA++
 		}
 	})
-	if err := a.Listen(addr); err != nil {
+	if err := w.ListenOn(a, addr); err != nil {
 		w.Failf("HARNESS/listen", "%v", err)
 		return
 	}
-	if err := b.Dial(addr); err != nil {
+	if err := w.DialOn(b, addr); err != nil {
 		w.Failf("HARNESS/dial", "%v", err)
 		return
 	}
@@ -164,11 +164,11 @@ func c02Pair(w *W) {
 		c = w.Sock(kind)
 		extras = append(extras, c)
 		addr2 := w.Addr(tran)
-		if err := c.Listen(addr2); err != nil {
+		if err := w.ListenOn(c, addr2); err != nil {
 			w.Failf("HARNESS/listen", "%v", err)
 			return
 		}
-		d, err := a.NewDialer(addr2, map[string]interface{}{mangos.OptionDialAsynch: true, mangos.OptionReconnectTime: 20 * time.Millisecond, mangos.OptionMaxReconnectTime: 20 * time.Millisecond})
+		d, err := a.NewDialer(addr2, w.EpOpts(addr2, false, map[string]interface{}{mangos.OptionDialAsynch: true, mangos.OptionReconnectTime: 20 * time.Millisecond, mangos.OptionMaxReconnectTime: 20 * time.Millisecond}))
 		if err == nil {
 			err = d.Dial()
 		}
@@ -184,7 +184,7 @@ func c02Pair(w *W) {
 		mustSet(w, e, mangos.OptionReconnectTime, 20*time.Millisecond)
 		mustSet(w, e, mangos.OptionDialAsynch, true)
 		extras = append(extras, e)
-		if err := e.Dial(addr); err != nil {
+		if err := w.DialOn(e, addr); err != nil {
 			w.Failf("HARNESS/extra-dial", "%v", err)
 			return
 		}
@@ -278,7 +278,7 @@ func c02Pair(w *W) {
 func c02Push(w *W) {
 	kind := []string{"push", "xpush"}[w.Choose(simrt.SShape, 2)]
 	pkind := []string{"pull", "xpull"}[w.Choose(simrt.SShape, 2)]
-	tran := []string{"inproc", "sim", "simipc"}[w.Choose(simrt.SShape, 3)]
+	tran := []string{"inproc", "sim", "simipc", "tcp", "ipc", "tls+tcp"}[w.Choose(simrt.SShape, 6)]
 	qs := []int{0, 1, 2, 128}
 	wq, rq := qs[w.Choose(simrt.SShape, 4)], qs[w.Choose(simrt.SShape, 4)]
 	npull := 1 + w.Choose(simrt.SShape, 3)
@@ -299,7 +299,7 @@ func c02Push(w *W) {
 	defer s.Close()
 	mustSet(w, s, mangos.OptionWriteQLen, wq)
 	addr := w.Addr(tran)
-	if err := s.Listen(addr); err != nil {
+	if err := w.ListenOn(s, addr); err != nil {
 		w.Failf("HARNESS/listen", "%v", err)
 		return
 	}
@@ -309,7 +309,7 @@ func c02Push(w *W) {
 		p := w.Sock(pkind)
 		defer p.Close()
 		mustSet(w, p, mangos.OptionReadQLen, rq)
-		if err := p.Dial(addr); err != nil {
+		if err := w.DialOn(p, addr); err != nil {
 			w.Failf("HARNESS/dial", "%v", err)
 			return
 		}
@@ -426,7 +426,7 @@ func init() {
 // second peer receives from one sender task ascends.
 func c02Handover(w *W) {
 	kind := []string{"pair", "xpair", "pair1", "xpair1"}[w.Choose(simrt.SShape, 4)]
-	tran := []string{"sim", "simipc", "inproc"}[w.Choose(simrt.SShape, 3)]
+	tran := []string{"sim", "simipc", "inproc", "tcp", "ipc", "tls+tcp"}[w.Choose(simrt.SShape, 6)]
 	wq := []int{8, 2, 128, 1}[w.Choose(simrt.SShape, 4)]
 	nmsg := 6 + w.Choose(simrt.SShape, 20)
 	w.SetShape("kind", kind)
@@ -444,11 +444,11 @@ func c02Handover(w *W) {
 		mustSet(w, s, mangos.OptionMaxReconnectTime, 5*time.Millisecond)
 	}
 	addr := w.Addr(tran)
-	if err := a.Listen(addr); err != nil {
+	if err := w.ListenOn(a, addr); err != nil {
 		w.Failf("HARNESS/listen", "%v", err)
 		return
 	}
-	if err := b.Dial(addr); err != nil {
+	if err := w.DialOn(b, addr); err != nil {
 		w.Failf("HARNESS/dial", "%v", err)
 		return
 	}
@@ -495,7 +495,7 @@ func c02Handover(w *W) {
 	calls := c2Senders(w, a, kind, "A", 1, nmsg, accepted)
 	// C starts knocking; B goes away at some point of the traffic
 	mustSet(w, c, mangos.OptionDialAsynch, true)
-	if err := c.Dial(addr); err != nil {
+	if err := w.DialOn(c, addr); err != nil {
 		w.Failf("HARNESS/dial", "%v", err)
 		return
 	}
